@@ -359,4 +359,78 @@ theorem strip_eq_map (cs : List AttrChar) : strip cs = cs.map (·.value) := by
   | nil => rfl
   | cons c cs ih => simp [strip, ih]
 
+theorem removeQuotesAndStrip_append (a b : List AttrChar) :
+    removeQuotesAndStrip (a ++ b) = removeQuotesAndStrip a ++ removeQuotesAndStrip b := by
+  simp [removeQuotesAndStrip, skipQuotes_eq_filter, strip_eq_map, List.filter_append]
+
+theorem removeQuotes_quoted_map (fs : List AttrChar) (h : ∀ c ∈ fs, c.isQuoting = false) :
+    removeQuotesAndStrip (fs.map (fun c => { c with isQuoted := true })) = fs.map (·.value) := by
+  induction fs with
+  | nil => rfl
+  | cons c t ih =>
+    have hc : c.isQuoting = false := h c (by simp)
+    have ih' : strip (skipQuotes (t.map (fun c => { c with isQuoted := true }))) = t.map (·.value) :=
+      ih (fun d hd => h d (by simp [hd]))
+    simp [removeQuotesAndStrip, skipQuotes, strip, hc, ih']
+
+/-- quote removal undoes `double_quote::quote_field` on a field without quoting characters -/
+theorem removeQuotes_quoteField (fs : List AttrChar) (h : ∀ c ∈ fs, c.isQuoting = false) :
+    removeQuotesAndStrip (quoteField fs) = fs.map (·.value) := by
+  unfold quoteField
+  rw [removeQuotesAndStrip_append, removeQuotesAndStrip_append, removeQuotes_quoted_map fs h]
+  simp [removeQuotesAndStrip, skipQuotes, strip, quoteChar]
+
+/-- values of `joinWith` on expansion results -/
+theorem joinWith_values (sep : Option Char) (ps : List (List Char)) :
+    (joinWith (sep.map softChar) (ps.map toField)).map (·.value) = joinStrings sep ps := by
+  induction ps with
+  | nil => rfl
+  | cons p t ih =>
+    cases t with
+    | nil => simp [joinWith, joinStrings, toField, softChar, Function.comp_def]
+    | cons q r =>
+      simp only [List.map_cons, joinWith, joinStrings, List.map_append] at ih ⊢
+      rw [ih]
+      cases sep <;> simp [toField, softChar, Function.comp_def]
+
+theorem joinWith_not_quoting (sep : Option Char) (ps : List (List Char)) :
+    ∀ c ∈ joinWith (sep.map softChar) (ps.map toField), c.isQuoting = false := by
+  induction ps with
+  | nil => intro c hc; simp [joinWith] at hc
+  | cons p t ih =>
+    cases t with
+    | nil =>
+      intro c hc
+      simp only [List.map_cons, List.map_nil, joinWith, toField, List.mem_map] at hc
+      rcases hc with ⟨_, _, rfl⟩; rfl
+    | cons q r =>
+      intro c hc
+      simp only [List.map_cons, joinWith, List.mem_append] at hc ih
+      rcases hc with (hc | hc) | hc
+      · simp only [toField, List.mem_map] at hc; rcases hc with ⟨_, _, rfl⟩; rfl
+      · cases sep with
+        | none => simp at hc
+        | some s => simp only [Option.map_some, List.mem_singleton] at hc; subst hc; rfl
+      · exact ih c hc
+
+/-- quote removal distributes over `ifs_join`'s concatenation -/
+theorem removeQuotes_joinWith_fields (sep : Option Char) (fs : List (List AttrChar)) :
+    removeQuotesAndStrip (joinWith (sep.map softChar) fs)
+      = joinStrings sep (fs.map removeQuotesAndStrip) := by
+  induction fs with
+  | nil => rfl
+  | cons f t ih =>
+    cases t with
+    | nil => simp [joinWith, joinStrings]
+    | cons g r =>
+      simp only [List.map_cons, joinWith, joinStrings, removeQuotesAndStrip_append] at ih ⊢
+      rw [ih]
+      cases sep <;> simp [removeQuotesAndStrip, skipQuotes, strip, softChar]
+
+theorem ifsSeparator_eq (env : Env) : ifsSeparator env = (sepChar env).map softChar := by
+  unfold ifsSeparator sepChar
+  rcases env.getValue "IFS" with _ | v
+  · rfl
+  · cases v <;> rfl
+
 end YashModel.Expansion
